@@ -610,10 +610,26 @@ func Nested() *descriptorpb.FileDescriptorProto {
 			{Name: proto.String("Inner"), Field: []*descriptorpb.FieldDescriptorProto{f("y", 1, opt, str, "")}},
 			{Name: proto.String("Leaf"), Field: []*descriptorpb.FieldDescriptorProto{f("z", 1, opt, i32, "")}},
 			{Name: proto.String("MEntry"), Field: []*descriptorpb.FieldDescriptorProto{f("key", 1, opt, str, ""), f("value", 2, opt, i32, "")}}}}
+	// Event: oneof members (and a plain field) whose CamelCase names equal a message / an enum nested in the SAME
+	// message: protogen gives the clashing wrapper types a trailing underscore (Event_Created_ next to Event_Created)
+	event := &descriptorpb.DescriptorProto{Name: proto.String("Event"),
+		Field: []*descriptorpb.FieldDescriptorProto{f("id", 1, opt, str, ""), f("created", 2, opt, msgT, ".vc.nest.Event.Created"),
+			f("kind", 3, opt, enumT, ".vc.nest.Event.Kind"), f("deleted", 4, opt, str, ""), f("updated", 5, opt, msgT, ".vc.nest.Event.Updated"),
+			f("meta", 6, opt, i32, "")},
+		OneofDecl: []*descriptorpb.OneofDescriptorProto{{Name: proto.String("payload")}},
+		NestedType: []*descriptorpb.DescriptorProto{
+			{Name: proto.String("Created"), Field: []*descriptorpb.FieldDescriptorProto{f("by", 1, opt, str, "")}},
+			{Name: proto.String("Updated"), Field: []*descriptorpb.FieldDescriptorProto{f("fields", 1, rep, str, "")}},
+			{Name: proto.String("Deleted"), Field: []*descriptorpb.FieldDescriptorProto{f("hard", 1, opt, i32, "")}},
+			{Name: proto.String("Meta")}},
+		EnumType: []*descriptorpb.EnumDescriptorProto{enum("Kind", "KIND_UNSPECIFIED", "KIND_SYSTEM")}}
+	for _, i := range []int{1, 2, 3} {
+		event.Field[i].OneofIndex = proto.Int32(0)
+	}
 	return &descriptorpb.FileDescriptorProto{
 		Name: proto.String("verifcorpus/nest/nest.proto"), Package: proto.String("vc.nest"), Syntax: proto.String("proto3"),
 		Options: &descriptorpb.FileOptions{GoPackage: proto.String("github.com/cosmos/cosmos-proto/internal/verifcorpus/nest")},
-		MessageType: []*descriptorpb.DescriptorProto{outer, other, flat, resource,
+		MessageType: []*descriptorpb.DescriptorProto{outer, other, flat, resource, event,
 			// a message WITHOUT fields used as a namespace for nested declarations (two levels)
 			{Name: proto.String("Namespace"), NestedType: []*descriptorpb.DescriptorProto{
 				reservedMsg("Decl"),
@@ -864,4 +880,55 @@ func SamePkgSplit() []*Schema {
 		{Num: 6, Kind: Enum, Shape: Singular},
 	}}}, []string{"verifcorpus/sq/sqb.proto", "verifcorpus/sq/sqc.proto", "verifcorpus/sq/sqd.proto", "verifcorpus/sq/sqe.proto"}))
 	return out
+}
+
+
+// Ext: a proto3 file that DECLARES extensions (custom options) of several different extendee messages, at file level
+// and nested in a message, next to a message and a service: the generator groups the extension variables by
+// extendee ("Extension fields to T"), and the registered file descriptor must list them as the request does.
+func Ext() *descriptorpb.FileDescriptorProto {
+	opt := descriptorpb.FieldDescriptorProto_LABEL_OPTIONAL.Enum()
+	rep := descriptorpb.FieldDescriptorProto_LABEL_REPEATED.Enum()
+	ext := func(name string, num int32, label *descriptorpb.FieldDescriptorProto_Label, typ descriptorpb.FieldDescriptorProto_Type, tn, extendee string) *descriptorpb.FieldDescriptorProto {
+		fp := &descriptorpb.FieldDescriptorProto{Name: proto.String(name), JsonName: proto.String(jsonName(name)), Number: proto.Int32(num), Label: label, Type: typ.Enum(),
+			Extendee: proto.String(".google.protobuf." + extendee)}
+		if tn != "" {
+			fp.TypeName = proto.String(tn)
+		}
+		if label == opt {
+			fp.Proto3Optional = nil
+		}
+		return fp
+	}
+	S, I32, B, M, I64, E := descriptorpb.FieldDescriptorProto_TYPE_STRING, descriptorpb.FieldDescriptorProto_TYPE_INT32, descriptorpb.FieldDescriptorProto_TYPE_BOOL,
+		descriptorpb.FieldDescriptorProto_TYPE_MESSAGE, descriptorpb.FieldDescriptorProto_TYPE_INT64, descriptorpb.FieldDescriptorProto_TYPE_ENUM
+	holder := &descriptorpb.DescriptorProto{Name: proto.String("Holder"),
+		Field: []*descriptorpb.FieldDescriptorProto{
+			{Name: proto.String("name"), JsonName: proto.String("name"), Number: proto.Int32(1), Label: opt, Type: S.Enum()},
+			{Name: proto.String("level"), JsonName: proto.String("level"), Number: proto.Int32(2), Label: opt, Type: E.Enum(), TypeName: proto.String(".vc.ext.Level")}},
+		Extension: []*descriptorpb.FieldDescriptorProto{
+			ext("quota", 50010, opt, I64, "", "ServiceOptions"),
+			ext("inner_tag", 50011, opt, S, "", "FieldOptions"),
+			ext("one_of_hint", 50012, opt, B, "", "OneofOptions")}}
+	return &descriptorpb.FileDescriptorProto{
+		Name: proto.String("verifcorpus/ext/ext.proto"), Package: proto.String("vc.ext"), Syntax: proto.String("proto3"),
+		Dependency: []string{"google/protobuf/descriptor.proto"},
+		Options:    &descriptorpb.FileOptions{GoPackage: proto.String("github.com/cosmos/cosmos-proto/internal/verifcorpus/ext")},
+		MessageType: []*descriptorpb.DescriptorProto{holder,
+			{Name: proto.String("Ping"), Field: []*descriptorpb.FieldDescriptorProto{{Name: proto.String("n"), JsonName: proto.String("n"), Number: proto.Int32(1), Label: opt, Type: I32.Enum()}}}},
+		EnumType: []*descriptorpb.EnumDescriptorProto{{Name: proto.String("Level"), Value: []*descriptorpb.EnumValueDescriptorProto{
+			{Name: proto.String("LEVEL_UNSET"), Number: proto.Int32(0)}, {Name: proto.String("LEVEL_HIGH"), Number: proto.Int32(5)}}}},
+		Service: []*descriptorpb.ServiceDescriptorProto{{Name: proto.String("Pinger"), Method: []*descriptorpb.MethodDescriptorProto{
+			{Name: proto.String("Ping"), InputType: proto.String(".vc.ext.Ping"), OutputType: proto.String(".vc.ext.Holder")}}}},
+		Extension: []*descriptorpb.FieldDescriptorProto{
+			ext("tag", 50001, opt, S, "", "FieldOptions"),
+			ext("audited", 50002, opt, B, "", "MessageOptions"),
+			ext("weight", 50003, opt, I32, "", "FieldOptions"),
+			ext("owner", 50004, opt, S, "", "FileOptions"),
+			ext("hint", 50005, opt, M, ".vc.ext.Holder", "MethodOptions"),
+			ext("labels", 50006, rep, S, "", "MessageOptions"),
+			ext("severity", 50007, opt, E, ".vc.ext.Level", "EnumValueOptions"),
+			ext("family", 50008, opt, S, "", "EnumOptions"),
+			ext("retries", 50009, opt, I32, "", "MethodOptions")},
+	}
 }
